@@ -40,10 +40,11 @@ func (zzLog) ErrorWithContext(string, string, logger.LogContext)             {}
 // zzDisc records status write-backs.
 type zzDisc struct {
 	updates []*domain.Endpoint
+	healthy []*domain.Endpoint // what the repository currently reports healthy (may exceed a request's candidate set)
 }
 
-func (*zzDisc) GetEndpoints(context.Context) ([]*domain.Endpoint, error)        { return nil, nil }
-func (*zzDisc) GetHealthyEndpoints(context.Context) ([]*domain.Endpoint, error) { return nil, nil }
+func (d *zzDisc) GetEndpoints(context.Context) ([]*domain.Endpoint, error)        { return d.healthy, nil }
+func (d *zzDisc) GetHealthyEndpoints(context.Context) ([]*domain.Endpoint, error) { return d.healthy, nil }
 func (*zzDisc) RefreshEndpoints(context.Context) error                          { return nil }
 func (d *zzDisc) UpdateEndpointStatus(_ context.Context, e *domain.Endpoint) error {
 	d.updates = append(d.updates, e)
